@@ -155,6 +155,50 @@ declare("ZC5", ["ZCInner", 'Z int `json:"B"`'], "conflict")
 declare("ZC6", ["*ZCInner2", 'N2 string `json:"n"`', "ZCInner3"], "conflict")
 declare("ZC7", ['P int `json:"p"`', 'Q int `json:"p"`'], "conflict")
 declare("ZC8", ["ZC1", "ZCInner3"], "conflict")
+
+# 2b. a systematic sweep of name conflicts: outer fields and embedded structs (one or two levels)
+# whose Go names and tag names are drawn from one small pool, tagged or not, of differing types
+POOL = ["A", "B", "a", "b"]
+TYPES = ["int", "string", "bool", "[]int8", "*float64"]
+def conflict_struct(prefix, depth):
+    nm = fresh(prefix)
+    fs = []
+    goused = set()
+    for i in range(1 + rnd.randrange(2)):
+        g = rnd.choice(["A", "B", "C", "D"])
+        if g in goused:
+            continue
+        goused.add(g)
+        t = rnd.choice(TYPES)
+        r = rnd.random()
+        if r < 0.45:
+            fs.append("%s %s" % (g, t))
+        elif r < 0.9:
+            fs.append('%s %s `json:"%s%s"`' % (g, t, rnd.choice(POOL), rnd.choice(["", ",omitempty"])))
+        else:
+            fs.append('%s %s `json:"-"`' % (g, t))
+    if depth > 0:
+        for i in range(rnd.randrange(3)):
+            inner = conflict_struct(prefix, depth - 1)
+            if inner in goused:
+                continue
+            goused.add(inner)
+            fs.append(rnd.choice(["", "*"]) + inner)
+    rnd.shuffle(fs)
+    out.append("type %s struct {\n%s\n}" % (nm, "\n".join("\t" + f for f in fs)))
+    return nm
+for i in range(40):
+    n = conflict_struct("ZX", 2)
+    decls.append((n, "conflict"))
+declare("ZC9", ["B string", "ZCInner3b"], "conflict")   # the deeper field is tagged with the name of an untagged shallower one
+out.append("""type ZCInner3b struct {
+	X int `json:"B"`
+	N int
+}""")
+# a type occurring several times, first through a pointer / with a description
+declare("ZTwice2", ["P *ZP2 `jsonschema:\"the first\"`", "V ZP2", "L []ZP2"], "plain")
+declare("ZTwice3", ["M map[string]*ZL47", "V ZL47 `json:\"v,omitempty\"`", "ZL48", "W *ZL48"], "plain")
+
 # 3. tagged embedding and embedded non-structs (O-7 / outside)
 declare("ZT1", ['ZCInner `json:"e"`'], "plain")
 declare("ZT2", ['*ZCInner3 `json:"p,omitempty"`', "K int"], "plain")
